@@ -23,7 +23,7 @@ def run(ctx):
     for k, entries in enumerate(combos):
         for seq in (False, True):
             out = ctx.path(f"entry_{k}_{int(seq)}.ndjson")
-            args = {"groups": ["ENTRY", "SCHED"], "policy": "dfs", "preemption_bound": 1, "max_runs": 150 if quick else 4000,
+            args = {"groups": ["ENTRY", "SCHED"], "policy": "dfs", "preemption_bound": 1, "max_runs": ctx.n(150, 4000),
                     "out": out, "scenario": bs["chain2"], "entries": entries, "workers": 1, "force_sequential": seq,
                     "seed": ctx.seed}
             r = ctx.vh("entry", args, timeout=3000)
